@@ -253,6 +253,35 @@ func run(raw json.RawMessage) driver.Result {
 	switch in.K {
 	case "flt":
 		return runFloat(in)
+	case "pad":
+		// values rendered as literals with blanks before and after, through both slice paths
+		parts := make([]string, len(in.Vals))
+		for i, v := range in.Vals {
+			bi, _ := new(big.Int).SetString(v, 10)
+			form := (in.E + i) % nForms
+			if !in.Signed && form == 8 { // ParseUint takes no sign
+				form = 0
+			}
+			parts[i] = in.L[2*i] + literal(bi, form) + in.L[2*i+1]
+		}
+		s := strings.Join(parts, ",")
+		et := uTypes[in.W%5]
+		if in.Signed {
+			et = sTypes[in.W%5]
+		}
+		og := guard(func() string {
+			v, err := parse.String(s, reflect.SliceOf(et))
+			if err != nil {
+				return "(Err 0)"
+			}
+			return "(Ok " + textgen.Pval(v) + ")"
+		})
+		oi := parseIntSlice(in.Signed, in.W%5, s)
+		return driver.Result{
+			Coq:  fmt.Sprintf("PaddedInts %s %d %s %s %s %s", sg, in.W%5, coqfmt.Str(s), zList(in.Vals), og, oi),
+			Kind: "padded-int-slices", Nontrivial: len(in.Vals) >= 2,
+			Tags: []string{"padded-generic-" + cls(og), "padded-integral-" + cls(oi)},
+		}
 	case "dur":
 		out := guard(func() string {
 			v, err := parse.String(in.S, reflect.TypeOf(time.Duration(0)))
@@ -502,6 +531,9 @@ func literal(v *big.Int, form int) string {
 	return body
 }
 
+var blanksBefore = []string{"", " ", "  ", "\t", "\n", " \t "}
+var blanksAfter = []string{"", " ", " ", "  ", "\t", " \t", "\r\n", "   "}
+
 const nForms = 12
 
 // sepEvery puts '_' before every k-th digit (and at the front if lead)
@@ -552,6 +584,14 @@ func sweep() []json.RawMessage {
 			add(input{K: "isrt", Signed: signed, W: w, Vals: []string{lo.String(), hi.String(), "0", hi.String(), lo.String()}})
 			add(input{K: "isrt", Signed: signed, W: w, Vals: []string{}})
 			add(input{K: "isrt", Signed: signed, W: w, Vals: []string{lo.String()}})
+		}
+	}
+	// blanks before and after integer elements on both slice paths
+	for w := 0; w < 5; w++ {
+		for _, sg := range []bool{true, false} {
+			add(input{K: "pad", Signed: sg, W: w, Vals: []string{"1", "2", "3"}, L: []string{"", " ", " ", "", " ", " "}, E: 0})
+			add(input{K: "pad", Signed: sg, W: w, Vals: []string{"7", "0"}, L: []string{"\t", "  ", "  ", "\t"}, E: 1})
+			add(input{K: "pad", Signed: sg, W: w, Vals: []string{"100"}, L: []string{" ", " "}, E: 6})
 		}
 	}
 	// durations: every unit boundary of Duration.String and the int64 edges, both signs
@@ -653,7 +693,21 @@ func gen(r *coqfmt.Rng, n int, tier string) []json.RawMessage {
 	for i := 0; i < n; i++ {
 		signed := r.Chance(1, 2)
 		w := r.Intn(5)
-		switch x := r.Intn(124); {
+		switch x := r.Intn(130); {
+		case x >= 124:
+			k := 1 + r.Intn(5)
+			vals := make([]string, k)
+			l := make([]string, 2*k)
+			for j := range vals {
+				vals[j] = genValue(r, signed, w, true).String()
+				lo, hi := bounds(signed, w)
+				if v, _ := new(big.Int).SetString(vals[j], 10); v.Cmp(lo) < 0 || v.Cmp(hi) > 0 {
+					vals[j] = hi.String()
+				}
+				l[2*j] = coqfmt.Pick(r, blanksBefore)
+				l[2*j+1] = coqfmt.Pick(r, blanksAfter)
+			}
+			add(input{K: "pad", Signed: signed, W: w, Vals: vals, L: l, E: r.Intn(nForms)})
 		case x >= 118:
 			v := int64(r.U64() >> uint(r.Intn(64)))
 			if r.Chance(1, 2) {
@@ -743,6 +797,7 @@ func main() {
 			"(non-trivial: >=2 members and at least one member containing a special rune); raw text through parse.String at 26 types " +
 			"(non-trivial: parsed successfully, length >= 3); float32/float64/complex64/complex128 boundary sweep and random literals, " +
 			"scalar, slice element, map value, parse.Complex*, flag helper Set - DIRECT ORACLE against strconv at the target bit size, no model (non-trivial: accepted); " +
+			"integer slices with blanks before and after the elements through both parse.String at []intN and the integral slice parsers (non-trivial: >=2 elements); " +
 			"durations: nanosecond counts (every unit boundary of Duration.String, int64 edges, random) through Duration.String and back, and duration texts " +
 			"(terms around the int64 edges, all unit spellings, long fractions, malformed) through parse.String at time.Duration (non-trivial: accepted / non-zero); " +
 			"distinct = distinct JSON inputs",
